@@ -210,11 +210,22 @@ def memo_key_cover(check: Check, repo: Repo) -> None:
             continue
         st = stores[-1]
         key = st.targets[0].slice  # type: ignore[attr-defined]
-        key_names = {n.id for n in ast.walk(key) if isinstance(n, ast.Name)}
+        # every alternative of the key expression (arms of conditional expressions, each
+        # reaching definition of a key local) must cover the inputs on its own
+        def arms(e: ast.AST) -> list[ast.AST]:
+            if isinstance(e, ast.IfExp):
+                return arms(e.body) + arms(e.orelse)
+            return [e]
+
+        alternatives: list[ast.AST] = []
         if isinstance(key, ast.Name):
             for d in Origins(fn).reaching(key.id, st):
                 if d.value is not None:
-                    key_names |= {n.id for n in ast.walk(d.value) if isinstance(n, ast.Name)}
+                    alternatives += arms(d.value)
+        if not alternatives:
+            alternatives = arms(key)
+        arm_names = [{n.id for n in ast.walk(a) if isinstance(n, ast.Name)} for a in alternatives]
+        key_names = set.intersection(*arm_names) if arm_names else set()
         # inputs of the computation: parameters used by the computed value
         used: set[str] = set()
         if compute:
@@ -1110,9 +1121,78 @@ def memo_discovery(check: Check, repo: Repo, mods: list[Module], rule: str = "ME
                 val_names = _names_through_locals(s.value, fn, org, s)
                 used = {p for p in params if p in val_names}
                 missing = used - key_names
-                check.ob(rule, s, f"{qualname_of(s)}: self.{al}[{unparse(key)[:40]}]", not missing,
-                         f"key covers {sorted(used)}" if not missing else
-                         f"the stored value depends on parameter(s) {sorted(missing)} that are not part of the key")
+                why = f"key covers {sorted(used)}" if not missing else \
+                    f"the stored value depends on parameter(s) {sorted(missing)} that are not part of the key"
+                if not missing:
+                    # a key that only holds an attribute projection of a parameter (`node.name.value`)
+                    # does not identify the parameter the value was computed from
+                    for p in sorted(used):
+                        proj = _attribute_projections(key, p, fn, org, s)
+                        if proj is None:
+                            continue  # the key holds p itself / id(p) / an element of p
+                        whole = _whole_uses(s.value, p, fn, org, s, proj)
+                        if whole:
+                            missing = {p}
+                            why = (f"the key holds only the projection {sorted(proj)} of `{p}`, but the stored value is computed "
+                                   f"from `{p}` itself ({whole[0]}): two different `{p}` with the same projection share one entry")
+                            break
+                check.ob(rule, s, f"{qualname_of(s)}: self.{al}[{unparse(key)[:40]}]", not missing, why)
+
+
+def _expand_locals(expr: ast.AST, fn: ast.AST, org: Origins, at: ast.AST, depth: int = 4) -> list[ast.AST]:
+    """expr plus the defining expressions of the locals it mentions (transitively)."""
+    out = [expr]
+    seen: set[str] = set()
+    frontier = {n.id for n in ast.walk(expr) if isinstance(n, ast.Name)}
+    for _ in range(depth):
+        nxt: set[str] = set()
+        for nm in frontier - seen:
+            seen.add(nm)
+            for d in org.reaching(nm, at):
+                if d.value is not None and d.kind in ("assign", "walrus", "unpack", "for"):
+                    out.append(d.value)
+                    nxt |= {x.id for x in ast.walk(d.value) if isinstance(x, ast.Name)}
+        frontier = nxt
+        if not frontier:
+            break
+    return out
+
+
+def _chain_of(n: ast.Name) -> tuple[ast.AST, bool]:
+    """Maximal attribute chain rooted at the name node, and whether it is a bare (whole) use."""
+    top: ast.AST = n
+    p = parent(top)
+    while isinstance(p, ast.Attribute) and p.value is top:
+        top = p
+        p = parent(top)
+    return top, top is n
+
+
+def _attribute_projections(key: ast.AST, pname: str, fn: ast.AST, org: Origins, at: ast.AST) -> set[str] | None:
+    """Attribute chains of `pname` in the key; None when the key holds pname itself somewhere."""
+    proj: set[str] = set()
+    for e in _expand_locals(key, fn, org, at):
+        for n in ast.walk(e):
+            if isinstance(n, ast.Name) and n.id == pname and parent(n) is not None:
+                top, whole = _chain_of(n)
+                if whole:
+                    return None
+                # a test `x if p.attr else y` is not key material
+                proj.add(unparse(top))
+    return proj or None
+
+
+def _whole_uses(value: ast.AST, pname: str, fn: ast.AST, org: Origins, at: ast.AST, proj: set[str]) -> list[str]:
+    out = []
+    for e in _expand_locals(value, fn, org, at):
+        for n in ast.walk(e):
+            if isinstance(n, ast.Name) and n.id == pname and parent(n) is not None:
+                top, whole = _chain_of(n)
+                text = unparse(top)
+                if whole or not any(text == q or text.startswith(q + ".") or q.startswith(text + ".") for q in proj):
+                    pp = parent(top)
+                    out.append(node_text(pp if pp is not None and not isinstance(pp, ast.stmt) else top, 60))
+    return out
 
 
 def _names_through_locals(expr: ast.AST, fn: ast.AST, org: Origins, at: ast.AST, depth: int = 4) -> set[str]:
